@@ -6,7 +6,7 @@ from hypothesis import strategies as st
 from trie.smt import SparseMerkleTree, calc_root
 
 from ..ref.smt import RefSMT, fold_root
-from ..util import Info, Raised, as_bytes, as_bytes_tuple, expect, expect_eq, impl
+from ..util import Info, Raised, as_bytes, as_bytes_tuple, call_with_headroom, expect, expect_eq, impl
 
 ID = "C14"
 LEVEL = "exploration"
@@ -114,6 +114,8 @@ def exhaustive(tier):
                                    (b[0], ("rand", bytes([b[1]]) * 32), b[2], 1)]}
 
     yield ("key_size=1: 2-op histories over the key set x {a, blank, 00} x set/delete x 2 defaults", gen())
+    yield ("32-byte keys used by a caller with only 100 frames of stack left",
+           iter([{"headroom": 100, "key_size": 32, "default": d} for d in (b"", b"default")]))
 
 
 def resolve_smt_key(spec, ks, base, written):
@@ -164,8 +166,35 @@ def check_tree(tree, ref, model, touched_keys, root0, info, label):
             expect_eq("calc_root-verifies", fold_root(k, v, tuple(br)), want_root, f"independent fold of branch({k.hex()}) {label}")
 
 
+def _run_headroom(case, info):
+    """The tree is iterative by design: every operation works from deep down a caller's stack."""
+    ks, default, h = case["key_size"], case["default"], case["headroom"]
+    ref = RefSMT(ks, default)
+    tree = impl("construct", SparseMerkleTree, key_size=ks, default=default)
+    model = {}
+    keys = [bytes([i]) * ks for i in (0, 1, 0x80, 0xFF)] + [b"\x00" * (ks - 1) + b"\x01"]
+    for i, k in enumerate(keys):
+        ret = impl("set", call_with_headroom, h, lambda: tree.set(k, b"v%d" % i))
+        model[k] = b"v%d" % i
+        path, sibs, root = ref.path_and_siblings(model, k)
+        expect_eq("update-returns-path-hashes", as_bytes_tuple("update-returns-path-hashes", ret, "set()"), path, "set() from a deep call stack")
+        expect_eq("root-is-merkle-root", as_bytes("root-is-merkle-root", tree.root_hash, "root_hash"), root, "root from a deep call stack")
+        got = impl("get", call_with_headroom, h, lambda: (tree.get(k), tree.exists(k), tree.branch(k)))
+        expect_eq("get-reflects-last-write", got[:2], (model[k], True), "get/exists from a deep call stack")
+        cr = impl("calc_root", call_with_headroom, h, lambda: calc_root(k, model[k], got[2]))
+        expect_eq("calc_root-verifies", as_bytes("calc_root-verifies", cr, "calc_root()"), root, "calc_root from a deep call stack")
+    impl("delete", call_with_headroom, h, lambda: tree.delete(keys[0]))
+    model[keys[0]] = default
+    expect_eq("root-is-merkle-root", as_bytes("root-is-merkle-root", tree.root_hash, "root_hash"), ref.root(model), "root after delete from a deep call stack")
+    info.label("low-stack-headroom")
+    info.nontrivial = True
+    return info
+
+
 def run_case(case):
     info = Info()
+    if "headroom" in case:
+        return _run_headroom(case, info)
     ks = case["key_size"]
     default = case["default"]
     info.label(f"key_size={ks}" if ks in (1, 2, 3, 4, 8, 32) else "key_size=other")
